@@ -68,7 +68,9 @@ func HarnessC01_Header() {
 }
 
 // genMessage draws one data message (non-control type) with symbolic fields.
-func genMessage(viaNewMessage bool) *Message {
+func genMessage(viaNewMessage bool) *Message { return genMessageMax(viaNewMessage, payloadBound()) }
+
+func genMessageMax(viaNewMessage bool, maxPayload int) *Message {
 	var m *Message
 	if viaNewMessage {
 		m = NewMessage()
@@ -83,7 +85,7 @@ func genMessage(viaNewMessage bool) *Message {
 	vAssume(vAnd(vAnd(m.MessageType != 1, m.MessageType != 2), vAnd(m.MessageType != 4, m.MessageType != 5)))
 	m.Timestamp = uint64(vU32())
 	vAssume(m.Timestamp < 1<<31)
-	m.Payload = vBytes(1 + vChoice(payloadBound()))
+	m.Payload = vBytes(1 + vChoice(maxPayload))
 	return m
 }
 
@@ -112,7 +114,14 @@ func HarnessC01_Session() {
 			sent = append(sent, sentMsg{mt: MessageTypeSetChunkSize, sid: 0, ts: 0, payload: []byte{byte(cs >> 24), byte(cs >> 16), byte(cs >> 8), byte(cs)}})
 			marks = append(marks, len(ab.out.data))
 		}
-		m := genMessage(viaNew)
+		maxp := payloadBound()
+		if vTier() == 1 && k == 3 {
+			maxp = 2 // three-message sessions: short payloads
+		}
+		if vTier() == 1 && k == 2 {
+			maxp = 6
+		}
+		m := genMessageMax(viaNew, maxp)
 		if i > 0 && vTier() == 0 {
 			// later messages of the quick tier: 1 or 3 payload bytes
 			vAssume(len(m.Payload) == 1 || len(m.Payload) == 3)
